@@ -34,9 +34,9 @@
 #include <sys/stat.h>
 
 enum { E_iEnter, E_iChkBegin, E_iChkSync, E_iChkEnd1, E_iChkEnd0, E_iSpin, E_iLock, E_iStepBegin,
-       E_iStepEnd, E_iUnlock, E_iEpiSync, E_iLeave, E_sLock, E_sSerBegin, E_sSerEnd, E_sUnlock, E_xStart, E_xStop, E_sSent, E_sStatic, E_iShotUnlock, E_iShotLock, E_N };
+       E_iStepEnd, E_iUnlock, E_iEpiSync, E_iLeave, E_sLock, E_sSerBegin, E_sSerEnd, E_sUnlock, E_xStart, E_xStop, E_sSent, E_sStatic, E_iShotUnlock, E_iShotLock, E_iHbBegin, E_iHbEnd, E_N };
 static const char* NAMES[E_N] = {"iEnter", "iChkBegin", "iChkSync", "iChkEnd1", "iChkEnd0", "iSpin", "iLock",
-    "iStepBegin", "iStepEnd", "iUnlock", "iEpiSync", "iLeave", "sLock", "sSerBegin", "sSerEnd", "sUnlock", "xStart", "xStop", "sSent", "sStatic", "iShotUnlock", "iShotLock"};
+    "iStepBegin", "iStepEnd", "iUnlock", "iEpiSync", "iLeave", "sLock", "sSerBegin", "sSerEnd", "sUnlock", "xStart", "xStop", "sSent", "sStatic", "iShotUnlock", "iShotLock", "iHbBegin", "iHbEnd"};
 
 struct rec { unsigned char code; signed char nc; };
 
@@ -263,10 +263,11 @@ void reb_simulation_step(void* r) {
 
 void reb_run_heartbeat(void* r) {
     resolve_lib();
-    int mine = g_active && t_in_int && mytid() == g_itid;
-    if (mine) t_in_hb = 1;
+    /* the per-step heartbeat (rebound.c:888); the one in the prologue (836) is part of the model's `pro` */
+    int mine = g_active && t_in_int && !t_pro && mytid() == g_itid;
+    if (mine) { t_in_hb = 1; append(E_iHbBegin, -1); delay(); }
     real_heartbeat(r);
-    if (mine) t_in_hb = 0;
+    if (mine) { delay(); append(E_iHbEnd, -1); t_in_hb = 0; }
 }
 
 void reb_simulation_save_to_stream(void* r, char** bufp, size_t* sizep) {
